@@ -77,6 +77,13 @@ def _ev(n, args, memo):
         if b == 0:
             return POISON
         return a // b if op == "udiv" else a % b
+    if op in ("ashr", "lshr"):
+        a, b = vals
+        if not (0 <= b < bits):
+            return POISON
+        if op == "ashr":
+            return dag.wrap_int(dag.as_signed(a, n.ty) >> b, n.ty)
+        return a >> b
     if op == "icmp":
         a, b = vals
         ty = n.args[0].ty
